@@ -552,3 +552,43 @@ Proof. split; [lra | split; lia]. Qed.
 Example passive_hypothesis_satisfiable tau :
   forall k, (k < 2 * 3)%nat -> (Cmod (delay_response tau (fftfreq (2 * 3) 1 k)) <= 1)%R.
 Proof. intros. unfold delay_response. rewrite Cmod_cis. lra. Qed.
+
+(* ------------------------------------------------------------------ FunctionSignal buffer grid *)
+Lemma full_times_length times lead trail dt :
+  length (full_times times lead trail dt) = (n_buffer lead dt + length times + n_buffer trail dt)%nat.
+Proof. unfold full_times. rewrite !app_length, !map_length, !seq_length. lia. Qed.
+
+(* the leading buffer continues the grid backwards with the same step ... *)
+Lemma full_times_leading times lead trail dt j : (j < n_buffer lead dt)%nat ->
+  nth j (full_times times lead trail dt) 0%R = (nth 0 times 0 - INR (n_buffer lead dt - j) * dt)%R.
+Proof.
+  intros Hj. unfold full_times. cbv zeta. set (nb := n_buffer lead dt) in *.
+  rewrite app_nth1 by (rewrite map_length, seq_length; assumption).
+  rewrite (nth_map_seq _ nb j 0%R Hj).
+  assert (HN : INR nb <> 0%R) by (apply not_0_INR; lia).
+  rewrite minus_INR by lia. field. assumption.
+Qed.
+
+(* ... the window is the grid itself ... *)
+Lemma full_times_window times lead trail dt i : (i < length times)%nat ->
+  nth (n_buffer lead dt + i) (full_times times lead trail dt) 0%R = nth i times 0%R.
+Proof.
+  intros Hi. unfold full_times. cbv zeta. set (nb := n_buffer lead dt).
+  rewrite app_nth2 by (rewrite map_length, seq_length; lia).
+  rewrite map_length, seq_length. replace (nb + i - nb)%nat with i by lia.
+  rewrite app_nth1 by assumption. reflexivity.
+Qed.
+
+(* ... and the trailing buffer continues it forwards *)
+Lemma full_times_trailing times lead trail dt j : (j < n_buffer trail dt)%nat ->
+  nth (n_buffer lead dt + length times + j) (full_times times lead trail dt) 0%R
+  = (last times 0 + INR (j + 1) * dt)%R.
+Proof.
+  intros Hj. unfold full_times. cbv zeta. set (nb := n_buffer lead dt). set (na := n_buffer trail dt) in *.
+  rewrite app_nth2 by (rewrite map_length, seq_length; lia).
+  rewrite map_length, seq_length.
+  rewrite app_nth2 by lia. replace (nb + length times + j - nb - length times)%nat with j by lia.
+  rewrite (nth_map_seq _ na j 0%R Hj).
+  assert (HN : INR na <> 0%R) by (apply not_0_INR; lia).
+  field. assumption.
+Qed.
